@@ -32,6 +32,9 @@ CLAIMED = {
          "§4 C11", "Lean decide +kernel table theorems with explicit exception list + exhaustive lookup correspondence"),
  "C20": ("proof", "Generated characteristic_potential / herrmann_radius = documented formulas; Herrmann >= Brillouin; monotone in cathode temperature, field, radius; loop exit: returned value is phi0(E+old)(2ln(r_H(E+old)/r_d)-1) with (new-old)/new <= 1e-6 (fixed_point_partial: sign of the quotient / monotone approach monitored); profile continuous at the beam edge, zero at the tube, negative inside, non-decreasing in r; ValueError exactly outside [0,r_d]. Correspondence: methods of ElectronBeam vs generated definitions and loop model incl. identical pass counts.",
          "§4 C20", "Lean theorems on generated formulas + hand loop model; correspondence"),
+
+ "C13": ("proof", "Theorems over ℝ on the hand model of the three Newton iterations (bit-identical to the kernels incl. pass counts): Newton identity A phi' = b(phi) - j_d(phi) (.) y for every update with non-vanishing pivots (self_consistent_partial: the defect of the non-linear system is controlled by y, whose smallness is the property's convergence premise); exit only through the stopping test or the pass budget; the updated potential is exactly 0 at the wall when the boundary row is (0,1,.) and rhs/Jacobian vanish there; 2 pi trapz(r n) = nl (x shape_0 for the e-beam variant); shapes in (0,1], 1 at the reference, 1 for neutrals; heat capacity >= 3/2 on any non-decreasing grid (weighted Cauchy-Schwarz), = 3/2 for neutrals/flat potential. Monitored: residual, ion-free = beam potential, ions raise phi, 5/2 harmonic limit.",
+         "§4 C13", "Lean theorems on hand model of the Newton loops + correspondence (full loops and single updates)"),
 }
 PENDING = {}
 def main():
